@@ -31,7 +31,7 @@ SIZES = [0, 1, 2, 14, 15, 16, 17, 30, 48]
 
 def bounds(tier):
     return {"cut_bound_protocol_seam": 3 if tier == "thorough" else 2, "cut_bound_wire_seam": 2 if tier == "thorough" else 1,
-            "all_subsets_up_to_bytes": 16, "payload_sizes": SIZES, "packets_per_stream": "1..4", "garbage_prefix": "0..6 bytes"}
+            "all_subsets_up_to_bytes": 20 if tier == "thorough" else 16, "payload_sizes": SIZES, "packets_per_stream": "1..4", "garbage_prefix": "0..6 bytes"}
 
 
 def pkt(n: int, tag: str, special: int = 0) -> bytes:
@@ -79,8 +79,15 @@ def streams(tier) -> list[tuple[str, bytes]]:
     return out
 
 
-def small_streams() -> list[tuple[str, bytes]]:
+def small_streams(tier="quick") -> list[tuple[str, bytes]]:
     out = []
+    if tier == "thorough":
+        # all 2^(n-1) segmentations for streams of up to 20 bytes as well
+        out.append(("small1x10", pkt(10, "w10", 1)))
+        out.append(("small1x12", pkt(12, "w12", 3)))
+        out.append(("small2x0,2", pkt(0, "x2") + pkt(2, "y2", 2)))
+        out.append(("small2x1,3", pkt(1, "x3", 2) + pkt(3, "y3", 4)))
+        out.append(("small-g3+1x8", b"\x00\x83\x83" + pkt(8, "z8", 2)))
     for n in range(0, 9):
         out.append((f"small1x{n}", pkt(n, f"w{n}", 2 if n else 0)))
     out.append(("small2x0", pkt(0, "x") + pkt(0, "y")))
@@ -95,9 +102,10 @@ def shards(tier):
     names = [s[0] for s in streams(tier)]
     for i in range(len(names)):
         out.append(("cuts", i, 0))
-    for i in range(len(small_streams())):
-        for part in range(2):
-            out.append(("all", i, part))
+    nsmall = len(small_streams(tier))
+    for i in range(nsmall):
+        for part in range(2 if tier != "thorough" else 8):
+            out.append(("all", i, part, 2 if tier != "thorough" else 8))
     nparts = 8 if tier == "thorough" else 2
     for k in (1, 2, 3):
         for part in range(nparts):
@@ -176,13 +184,13 @@ def run_cuts(st: Stats, name: str, stream: bytes, maxcuts: int):
         w.close()
 
 
-def run_all_subsets(st: Stats, name: str, stream: bytes, part: int):
+def run_all_subsets(st: Stats, name: str, stream: bytes, part: int, nparts: int = 2):
     w = World()
     try:
         cache = {}
         L = len(stream)
         case = {"kind": "all", "stream": name}
-        for mask in range(part, 1 << (L - 1), 2):
+        for mask in range(part, 1 << (L - 1), nparts):
             cuts = tuple(i + 1 for i in range(L - 1) if mask >> i & 1)
             ok = feed(w, stream, cuts, st, case, cache)
             st.ev((name, mask), "agree" if ok else "differ", True)
@@ -318,8 +326,8 @@ def run_shard(shard, tier) -> Stats:
             maxc = min(maxc, 2)
         run_cuts(st, name, stream, maxc)
     elif kind == "all":
-        name, stream = small_streams()[shard[1]]
-        run_all_subsets(st, name, stream, shard[2])
+        name, stream = small_streams(tier)[shard[1]]
+        run_all_subsets(st, name, stream, shard[2], shard[3])
     else:
         run_wire(st, shard[1], shard[2], shard[3], 2 if tier == "thorough" and shard[1] == 1 else 1)
     st.traces = st.evaluations
@@ -336,7 +344,7 @@ def replay(case):
             cuts, gap = tuple(range(1, len(info["stream"]))), 0.0007
         out, info, frames = wire_exec(case["packets"], cuts, gap)
         return str(out)[:500]
-    allst = dict(streams("thorough") + small_streams())
+    allst = dict(streams("thorough") + small_streams("thorough"))
     w = World()
     try:
         ok = feed(w, allst[case["stream"]], tuple(case.get("cuts", ())), st, case, {})
